@@ -17,7 +17,12 @@ RULE = (
     "all sign quadrants, integer-dtype) x preload on/off, with operator extraction on every image basis vector x "
     "{1,-2,5e-4}, dense signed / zero / native-stored images, mapping matrices (scaled basis columns, dense signed, "
     "dense positive, zero column, no columns) and the adjoint on every visibility basis vector x {1, i, -1-2i} plus "
-    "dense complex; 'util' = the autoarray.util.transformer functions called directly on irregular (non-lattice) "
+    "dense complex, plus two call histories inside the case: (i) one Visibilities object read (in_array, in_grid, "
+    "ordered_1d, image_from), edited in place (integer index, slice, boolean mask, full slice) and read again after "
+    "every edit, for K = 1, 2 and 5 visibilities; (ii) for masks with >=2 unmasked and >=1 masked pixel, three transformers with "
+    "identical baselines built one after the other (same mask; same shape/scales/number of unmasked pixels at other "
+    "positions; same pattern at another origin), each checked against the oracle of its own mask, and the first "
+    "re-checked after the others were used; 'util' = the autoarray.util.transformer functions called directly on irregular (non-lattice) "
     "grids for every (n pixels, K baselines) in 1..4 x 1..4; 'inv' = every mask (>=2 unmasked pixels) of the stated "
     "frames x every ordered list of linear objects of the stated menu x preload on/off x (factory on a real "
     "Interferometer, InversionInterferometerMapping on a DatasetInterface). non-trivial = dft: >=2 unmasked pixels "
@@ -33,12 +38,18 @@ ASSUMPTIONS = [
     "floating-point tie cases",
     "each linear object's own mapping_matrix is taken as given (certified separately by C06)",
     "pylops.LinearOperator is replaced by a no-op stand-in base class (harness process only)",
+    "transformers and visibilities share no state by specification; the runner forks a fresh process per chunk, so every "
+    "history that could expose process-level or object-level caches (second transformer with equal baselines/shape/pixel "
+    "count, in-place edit between two reads) is replayed inside a single case. amplitudes/phases are cached_property on "
+    "the pinned tree (stale after an in-place edit; not part of the property's observables) and are only observed when "
+    "first read after an edit",
 ]
 BOUNDS = {
     "quick": "dft: all masks with <= 6 cells (all shapes incl. 1xN, Nx1) x 6 geometries (3 pixel-scale pairs x 2 "
              "origins), all masks with 7..8 cells x 3 geometries (one per pixel-scale pair, zero and non-zero origin) and "
              "all masks with exactly 9 cells (1x9, 3x3, 9x1) x 1 anisotropic off-origin geometry; 7 "
-             "baseline sets (K = 1,1,3,2,4,5,2) x preload on/off each; util: n,K in 1..4; inv: all 3x3 masks with >= 2 "
+             "baseline sets (K = 1,1,3,2,4,5,2) x preload on/off each, in-place-edit history (4 edits) on baseline sets G1,G2,G5 (K=1,2,5), "
+             "second-transformer history (T1,T2,T3,T1 again) on baseline sets G5 (preload) and G2 (no preload); util: n,K in 1..4; inv: all 3x3 masks with >= 2 "
              "unmasked pixels x a rotating fifth of the 50 ordered object lists (length 1..2 over rectA,rectB,del,func,"
              "funcS with regularization flags), every second 2x3/3x2 mask x a 4-list menu, every 7th 4x4 mask with <= 3 masked "
              "pixels x 1 list of that menu; each inv case = preload on/off x (factory on Interferometer, class on DatasetInterface); "
@@ -365,6 +376,9 @@ def run_dft(aa, v, h, w, bits, g, seed):
             im2 = t.image_from(visibilities=vis2)
             v.ok(near(np.array(im2.slim), adjoint_real(A, dv), max(1.0, K * float(np.abs(dv).max()))), "image_from:adjoint",
                  lambda: "%s two-column visibilities" % tag)
+            # ---- one Visibilities object edited in place between two adjoint calls (once per baseline set)
+            if pre and sname in EDIT_SETS:
+                check_inplace_edits(aa, v, t, A, dv, sname)
         # ---- with == without preload
         for key in [k for k in results if k[2] is True]:
             a, b = results[key], results.get((key[0], key[1], False))
@@ -372,6 +386,143 @@ def run_dft(aa, v, h, w, bits, g, seed):
                 continue
             site = "visibilities_from:preload-differs" if key[0] == "vis" else "transform_mapping_matrix:preload-differs"
             v.ok(near(a, b), site, lambda: "%s %s: maxdiff=%s" % (sname, key[1], dom.maxdiff(a, b)))
+    # ---- several transformers with identical baselines alive in this one process
+    if v.nontrivial:
+        run_second_transformers(aa, v, m, scales, origin, seed)
+
+
+def partner_mask(m):
+    """A mask of the same shape and the same number of unmasked pixels whose unmasked positions differ (point reflection,
+    else a cyclic shift of the row-major cell sequence, which moves every non-constant pattern)."""
+    for cand in (m[::-1, ::-1], np.roll(m.ravel(), 1).reshape(m.shape)):
+        if not np.array_equal(cand, m):
+            return np.ascontiguousarray(cand)
+    return None
+
+
+EDIT_SETS = ("G1", "G2", "G5")  # K = 1, 2, 5 visibilities (the edits do not depend on the baseline values)
+SECOND_SETS = (("G5", (True,)), ("G2", (False,)))
+SECOND = "second-transformer-same-process"
+
+
+def run_second_transformers(aa, v, m, scales, origin, seed):
+    """History inside ONE case: transformers built one after the other in the same process with IDENTICAL baselines on
+    real-space masks that agree in shape, pixel scales and number of unmasked pixels but not in the unmasked positions
+    (T2) or not in the mask origin (T3). Every transformer must satisfy the explicit-DFT oracle of ITS OWN mask, and the
+    first one must still do so after the later ones were built and used. A failure of T2/T3/T1-again while the first,
+    freshly built T1 passed is classed '<site>:second-transformer-same-process'; if T1 itself fails the plain class is used."""
+    h, w = m.shape
+    n = int((~m).sum())
+    m2 = partner_mask(m)
+    origin3 = (origin[0] + 0.45, origin[1] - 0.3)
+    specs = [("T1", m, origin), ("T2:same-count-other-positions", m2, origin), ("T3:same-pattern-other-origin", m, origin3)]
+    r = dom.rng(seed, "dft2nd", h, w)
+    vals = np.where(np.arange(n) % 2 == 0, 1.0, -1.3) * (0.4 + r.uniform(size=n))
+    X = np.where((np.arange(n * 2).reshape(n, 2) % 3) == 1, -1.0, 1.0) * (0.2 + r.uniform(size=(n, 2)))
+    sets = dict(baseline_sets(seed))
+    for sname, pres in SECOND_SETS:
+        uv = sets[sname]
+        K = uv.shape[0]
+        vv = (r.normal(size=K) + 1j * r.normal(size=K))
+        for pre in pres:
+            pt = _ptag(pre)
+            first_ok = [True]
+            built = []
+
+            def observe(label, t, A, is_first):
+                def rec(cond, site, msg):
+                    if is_first:
+                        if not cond:
+                            first_ok[0] = False
+                        v.ok(cond, site, msg)
+                    else:
+                        v.ok(cond, ("%s:%s" % (site, SECOND)) if first_ok[0] else site, msg)
+
+                where = "%s/%s %s" % (sname, pt, label)
+                if pre:
+                    pr, pi_ = np.asarray(t.preload_real_transforms), np.asarray(t.preload_imag_transforms)
+                    rec(near(pr, np.real(A).T, 1.0) and near(pi_, np.imag(A).T, 1.0), "preload-tables",
+                        lambda: "%s: tables differ from the cos/sin tables of this transformer's own mask (cos maxdiff=%s)" % (
+                            where, dom.maxdiff(pr, np.real(A).T)))
+                got = np.array(t.visibilities_from(image=aa.Array2D(values=vals.copy(), mask=t.real_space_mask)))
+                ref = A @ vals
+                rec(near(got, ref, max(1.0, n * float(np.abs(vals).max()))), "visibilities_from:%s" % pt,
+                    lambda: "%s: got=%s want=%s (oracle of its own mask)" % (where, got[:3], ref[:3]))
+                T = np.asarray(t.transform_mapping_matrix(mapping_matrix=X.copy()))
+                rec(T.shape == (K, 2) and near(T, A @ X, max(1.0, n * float(np.abs(X).max()))), "transform_mapping_matrix:%s" % pt,
+                    lambda: "%s: maxdiff to A.X of its own mask = %s" % (where, dom.maxdiff(T, A @ X)))
+                if pre:
+                    return  # the adjoint does not use the tables; it is observed in the no-preload history
+                im = t.image_from(visibilities=aa.Visibilities(visibilities=vv.copy()))
+                refi = adjoint_real(A, vv)
+                rec(near(np.array(im.slim), refi, max(1.0, K * float(np.abs(vv).max()))) and dom.exact(np.array(im.mask), np.array(t.real_space_mask)),
+                    "image_from:adjoint", lambda: "%s: got=%s want=%s" % (where, np.array(im.slim)[:3], refi[:3]))
+
+            for label, mm, org in specs:
+                mask = aa.Mask2D(mask=mm.copy(), pixel_scales=scales, origin=org)
+                t = aa.TransformerDFT(uv_wavelengths=uv.copy(), real_space_mask=mask, preload_transform=pre)
+                yy, xx = pixel_centres_radians(mm, scales, org)
+                A = dft_matrix(yy, xx, uv)
+                built.append((label, t, A))
+                observe(label, t, A, label == "T1")
+            # the first transformer again, after the later ones were built and used
+            observe("T1 re-used after T2,T3", built[0][1], built[0][2], False)
+
+
+def check_inplace_edits(aa, v, t, A, dv, sname):
+    """History inside ONE case: a Visibilities object is read (in_array / in_grid / ordered_1d, image_from), then edited IN
+    PLACE (integer index, slice, boolean mask, full slice) and read again. Every read must reflect the CURRENT values.
+    amplitudes / phases are cached_property on the pinned tree and are only observed on an object on which they were
+    never read before the edit (first read after the edit)."""
+    K = len(dv)
+    cur = dv.copy()
+    vis = aa.Visibilities(visibilities=dv.copy())
+    AFTER = ":after-in-place-edit-of-visibilities"
+
+    def observe(step, sfx):
+        where = "%s %s" % (sname, step)
+        a = np.array(vis)
+        v.ok(dom.exact(a, cur), "Visibilities:in-place-edit:values" if sfx else "Visibilities:values",
+             lambda: "%s: values %s, expected %s" % (where, a, cur))
+        two = np.stack([cur.real, cur.imag], axis=-1)
+        ia = np.asarray(vis.in_array)
+        v.ok(dom.exact(ia, two), "Visibilities.in_array" + sfx, lambda: "%s: in_array=%s current values=%s" % (where, ia.tolist(), two.tolist()))
+        ig = np.asarray(vis.in_grid)
+        v.ok(dom.exact(ig, two), "Visibilities.in_grid" + sfx, lambda: "%s: in_grid=%s current values=%s" % (where, ig.tolist(), two.tolist()))
+        o1 = np.asarray(vis.ordered_1d)
+        v.ok(dom.exact(o1, np.concatenate([cur.real, cur.imag])), "Visibilities.ordered_1d" + sfx,
+             lambda: "%s: ordered_1d=%s current values=%s" % (where, o1.tolist(), cur))
+        im = t.image_from(visibilities=vis)
+        ref = adjoint_real(A, cur)
+        got = np.array(im.slim)
+        v.ok(near(got, ref, max(1.0, K * float(np.abs(cur).max()))), ("image_from" + sfx) if sfx else "image_from:adjoint",
+             lambda: "%s: image_from gives %s, adjoint of the CURRENT visibilities %s is %s" % (where, got[:3], cur, ref[:3]))
+
+    observe("before any edit", "")
+    i = K // 2
+    vis[i] = 0
+    cur[i] = 0
+    observe("after vis[%d] = 0" % i, AFTER)
+    hi = (K + 1) // 2
+    new = (np.arange(hi) + 1.0) * (0.75 - 1.25j)
+    vis[0:hi] = new.copy()
+    cur[0:hi] = new
+    observe("after vis[0:%d] = array" % hi, AFTER)
+    key = np.arange(K) % 2 == 0
+    vis[key.copy()] = 0.5 - 1.5j
+    cur[key] = 0.5 - 1.5j
+    observe("after vis[boolean mask] = scalar", AFTER)
+    vis[:] = dv.copy()
+    cur[:] = dv
+    observe("after vis[:] = original values", AFTER)
+    # amplitudes / phases read for the FIRST time after an edit
+    vis2 = aa.Visibilities(visibilities=dv.copy())
+    vis2[i] = -2.0 + 0.5j
+    c2 = dv.copy()
+    c2[i] = -2.0 + 0.5j
+    amp, ph = np.asarray(vis2.amplitudes), np.asarray(vis2.phases)
+    v.ok(near(amp, np.abs(c2)) and near(ph, np.angle(c2), np.pi), "Visibilities.amplitudes-phases:first-read-after-in-place-edit",
+         lambda: "%s: amplitudes=%s phases=%s for current values %s" % (sname, amp, ph, c2))
 
 
 def run_util(aa, v, n, K, seed):
